@@ -640,7 +640,80 @@ pub fn c17(args: &Args) -> Report {
         return replay_e1(args, mk);
     }
     let res = c17_e1(args.tier);
-    with_conformance(fold(res, &["panic", "codec"], 0, json!({})), &[(true, false), (false, true)])
+    let mut rep = fold(res, &["panic", "codec"], 0, json!({}));
+    // the timer component itself, against its integer reference
+    crate::seq_counter::run(&mut rep, args.tier);
+    with_conformance(rep, &[(true, false), (false, true)])
+}
+
+pub fn c13_e1(tier: Tier) -> Vec<ExploreResult> {
+    let mk: &MkMon = &|_s: &Scenario| Box::new(mons::C13::default());
+    let mut scns = vec![];
+    for (ack, closure) in [(true, false), (false, false), (false, true)] {
+        for file in [true, false] {
+            let mut s = Scenario::base(&format!("{} {} requests=[create,append,delete-missing,rename]", named("c13", ack, closure), if file { "file size=17" } else { "requests-only" }));
+            s.ack = ack;
+            s.closure = closure;
+            s.file_size = if file { Some(17) } else { None };
+            s.requests = vec![(0, "new1".into(), "".into()), (3, "log1".into(), "log2".into()), (1, "nope".into(), "".into()), (2, "log2".into(), "log3".into())];
+            s.pre_files = vec![("log1".into(), "A".into()), ("log2".into(), "B".into())];
+            // the C02 budget …
+            let mut a = s.clone();
+            a.name = format!("{} F={} duo", s.name, tier.pick(1, 2));
+            a.faults = tier.pick(1, 2);
+            a.k_drop = true;
+            a.k_dup = true;
+            a.k_overtake = true;
+            scns.push(a);
+            // … and the C04 budget (re-deliveries after completion)
+            let mut b = s.clone();
+            b.name = format!("{} F=1 d stragglers={}", s.name, tier.pick(1, 2));
+            b.faults = 1;
+            b.k_drop = true;
+            b.stragglers = tier.pick(1, 2);
+            b.stragglers_after_success = true;
+            scns.push(b);
+            // cancel: no effect at all
+            let mut c = s.clone();
+            c.name = format!("{} cancel@R", s.name);
+            c.user = vec![(Side::R, UserOp::Cancel, 1)];
+            scns.push(c);
+        }
+    }
+    run_all(scns, mk, tier)
+}
+
+pub fn c13(args: &Args) -> Report {
+    let mk: &MkMon = &|_s: &Scenario| Box::new(mons::C13::default());
+    if args.replay.is_some() {
+        let v: serde_json::Value = serde_json::from_str(&std::fs::read_to_string(args.replay.as_ref().unwrap()).expect("replay file")).unwrap();
+        if v["case"]["engine"] == "txn-mc" {
+            return replay_e1(args, mk);
+        }
+        return crate::seq_fsreq::run(args);
+    }
+    // transaction level (txn-mc) …
+    let mut rep = fold(c13_e1(args.tier), &["panic", "codec"], 0, json!({}));
+    // … and the dispatcher against its reference model (seq-mc)
+    let d = crate::seq_fsreq::run(args);
+    let (ds, dt) = (d.coverage["states"].as_u64().unwrap_or(0), d.coverage["transitions"].as_u64().unwrap_or(0));
+    if let Some(o) = rep.coverage.as_object_mut() {
+        o.insert("dispatcher".into(), d.coverage.clone());
+        let s = o["states"].as_u64().unwrap_or(0) + ds;
+        let t = o["transitions"].as_u64().unwrap_or(0) + dt;
+        o.insert("states".into(), json!(s));
+        o.insert("transitions".into(), json!(t));
+    }
+    rep.violations.extend(d.violations);
+    rep.machinery_errors.extend(d.machinery_errors);
+    rep.assumptions.extend(d.assumptions);
+    let mut rep = with_conformance(rep, &[(true, false)]);
+    // every dispatcher transition was executed on the real NativeFileStore as well
+    if let Some(o) = rep.coverage.as_object_mut() {
+        let v = o["traces_validated_against_impl"].as_u64().unwrap_or(0) + dt;
+        o.insert("traces_validated_against_impl".into(), json!(v));
+    }
+    rep
 }
 
 /// debugging aid: vcheck DBG <file.json> with {"scenario":…, "histories":[[…],[…]]}
